@@ -260,6 +260,39 @@ def foreign_documents():
             "metadata": [None, {"m": 1}, None, None, None],
         },
     }
+    fsig = {"params": [], "body": ft([B, B], [B, B])}
+    docs["order edges at function loads, calls and constant loads"] = {
+        "version": "live", "encoder": "foreign",
+        "nodes": [
+            {"parent": 0, "op": "Module"},
+            {"parent": 0, "op": "FuncDecl", "name": "f", "signature": fsig},
+            {"parent": 0, "op": "FuncDefn", "name": "main", "signature": {"params": [], "body": ft([B], [B])}},
+            {"parent": 2, "op": "Input", "types": [B]},
+            {"parent": 2, "op": "Output", "types": [B]},
+            {"parent": 2, "op": "LoadFunction", "func_sig": fsig, "type_args": [], "instantiation": ft([B, B], [B, B])},
+            {"parent": 2, "op": "Call", "func_sig": fsig, "type_args": [], "instantiation": ft([B, B], [B, B])},
+            {"parent": 2, "op": "Const", "v": {"v": "Sum", "tag": 1, "typ": {"t": "Sum", "s": "Unit", "size": 2}, "vs": []}},
+            {"parent": 2, "op": "LoadConstant", "datatype": B},
+        ],
+        "edges": [[[1, 0], [5, 0]], [[1, 0], [6, 2]], [[3, 0], [6, 0]], [[3, 0], [6, 1]], [[6, 0], [4, 0]], [[7, 0], [8, 0]],
+                  [[3, None], [5, None]], [[5, None], [6, None]], [[6, None], [8, None]], [[8, None], [4, None]]],
+        "metadata": [None, None, None, None, None, None, None, None, None],
+    }
+
+    def order_offsets(nd):
+        """(order input offset, order output offset) of a node of the document, from its signature"""
+        op = nd["op"]
+        if op == "Call":
+            return len(nd["instantiation"]["input"]) + 1, len(nd["instantiation"]["output"])
+        if op in ("LoadFunction", "LoadConstant"):
+            return 1, 1
+        if op == "Extension":
+            return len(nd["signature"]["input"]), len(nd["signature"]["output"])
+        if op == "Input":
+            return 0, len(nd["types"])
+        if op == "Output":
+            return len(nd["types"]), 0
+        return None, None
     for name, d in docs.items():
         out["evaluations"] += 1
         try:
@@ -287,6 +320,21 @@ def foreign_documents():
             order = [(s.idx, t.idx) for s in h for t in h.outgoing_order_links(s)]
             if len(order) != n_order:
                 why = f"order links after load: {order}"
+        if why is None and n_order:
+            # re-saved state-order edges: without offsets, or at the port after the signature's ports of both operations
+            want_order = sorted((e[0][0], e[1][0]) for e in d["edges"] if e[0][1] is None)
+            got_order = []
+            for (sn, so), (tn, to) in d2["edges"]:
+                if _json.dumps([[sn, so], [tn, to]]) in want_edges:
+                    continue
+                if so is None and to is None:
+                    got_order.append((sn, tn))
+                elif order_offsets(d["nodes"][sn])[1] == so and order_offsets(d["nodes"][tn])[0] == to:
+                    got_order.append((sn, tn))
+                else:
+                    why = f"state-order edge {sn} -> {tn} re-saved at offsets ({so}, {to}), the signatures put the order ports at ({order_offsets(d['nodes'][sn])[1]}, {order_offsets(d['nodes'][tn])[0]})"
+            if why is None and sorted(got_order) != want_order:
+                why = f"state-order edges {want_order} re-saved as {sorted(got_order)}"
         md = [m or None for m in d2.get("metadata") or []]
         if why is None and md != [m or None for m in d["metadata"]]:
             why = f"metadata {d['metadata']!r} -> {d2.get('metadata')!r}"
